@@ -255,6 +255,64 @@ def classify_binding(ctx, init, value, sel, roe):
     return None, None, False, "unrecognised binding `%s`" % A.short(value, 80)
 
 
+def _loop_reduction(ctx, call, cname, vpar):
+    """any/all written as an explicit short-circuit loop over self._selectors.  Returns "any"/"all" (decided by the truth value on
+    which the loop is left early) after checking the neutral element: what the function returns when the loop body never runs
+    must be all(()) == True resp. any(()) == False -- an empty tuple selects everything, an empty list nothing."""
+    loops = [l for l in A.walk_local(call) if isinstance(l, ast.For) and K.iter_order(l.iter, "self._selectors") == "forward"
+             and isinstance(l.target, ast.Name)]
+    if len(loops) != 1:
+        return None
+    loop = loops[0]
+    item = loop.target.id
+
+    def applies(e, q, upto):
+        """Is e (possibly through bool() and one local) the loop item applied to the value?"""
+        if isinstance(e, ast.Name):
+            defs = [ev[1].value for ev in q.ev[:upto] if ev[0] == "stmt" and isinstance(ev[1], ast.Assign) and len(ev[1].targets) == 1
+                    and isinstance(ev[1].targets[0], ast.Name) and ev[1].targets[0].id == e.id]
+            return bool(defs) and applies(defs[-1], q, upto)
+        if isinstance(e, ast.Call) and A.call_name(e) == "bool" and len(e.args) == 1:
+            return applies(e.args[0], q, upto)
+        return isinstance(e, ast.Call) and A.src(e.func) == item and len(e.args) == 1 and A.src(e.args[0]) == vpar and not e.keywords
+
+    exits = set()
+    for q in P.loop_body_paths(loop):
+        if q.end not in ("break", "return"):
+            continue
+        conds = [(i, ev) for i, ev in enumerate(q.ev) if ev[0] == "cond"]
+        if not conds:
+            return None
+        i, ev = conds[-1]
+        lits = A.literals(ev[1], ev[2])
+        if len(lits) != 1 or not applies(lits[0][0], q, i):
+            return None
+        exits.add(lits[0][1])
+    if len(exits) != 1:
+        return None
+    red = "any" if exits.pop() else "all"
+    neutral = (red == "all")
+    # the value returned when the loop body never runs
+    for p in P.paths_of(call):
+        if p.end != "return" or not any(ev[0] == "loop0" and ev[1] is loop for ev in p.ev):
+            continue
+        rets = [ev[1] for ev in p.ev if ev[0] == "stmt" and isinstance(ev[1], ast.Return)]
+        v = rets[-1].value if rets else None
+        if isinstance(v, ast.Name):
+            defs = [ev[1].value for ev in p.ev if ev[0] == "stmt" and isinstance(ev[1], ast.Assign) and len(ev[1].targets) == 1
+                    and isinstance(ev[1].targets[0], ast.Name) and ev[1].targets[0].id == v.id]
+            v = defs[-1] if defs else v
+        if not (isinstance(v, ast.Constant) and isinstance(v.value, bool)):
+            return None
+        ctx.check("C15-a", v.value is neutral, rets[-1], "%s.__call__ leaves its loop at the first %s item (a short-circuit %s()) but returns %s "
+                  "when there is no item at all: %s(()) is %s -- an empty %s must select %s, and Not, nesting and Filter built on it are "
+                  "all inverted for the empty specification" % (cname, "true" if red == "any" else "false", red, v.value, red, neutral,
+                                                                "tuple" if red == "all" else "list", "every value" if neutral else "nothing"),
+                  detail="%s.__call__: explicit short-circuit %s() with neutral element %s" % (cname, red, neutral),
+                  construct="%s-neutral" % cname, path=p)
+    return red
+
+
 def reducer_of(ctx, cls_target):
     """Name of the builtin (any/all) that <class>.__call__ reduces self._selectors with; checks the shape."""
     res = ctx.res
@@ -274,6 +332,10 @@ def reducer_of(ctx, cls_target):
                           construct="%s-eager" % cname)
             return (None, call) if False else ("any" if cname == "Or" else "all", call)
     c = _straight_return(call)
+    if len(ps) == 1 and not isinstance(c, ast.Call):
+        red = _loop_reduction(ctx, call, cname, ps[0])
+        if red is not None:
+            return red, call
     if len(ps) != 1 or not isinstance(c, ast.Call):
         return None, call
     canon = res.call_canon(c)
@@ -1325,6 +1387,9 @@ IETF = "lena/context/include_exclude_tree.py"
 GBF = "lena/flow/group_by.py"
 FLT = "lena/flow/filter.py"
 VARIANTS = [
+    M("and-loop-wrong-neutral", "lena/flow/selectors.py", "        return all((f(val) for f in self._selectors))", "        selected = False\n        for sel in self._selectors:\n            selected = bool(sel(val))\n            if not selected:\n                break\n        return selected", ["C15-a"]),
+    TW("and-loop-right-neutral", "lena/flow/selectors.py", "        return all((f(val) for f in self._selectors))", "        selected = True\n        for sel in self._selectors:\n            selected = bool(sel(val))\n            if not selected:\n                break\n        return selected"),
+    TW("or-loop-right-neutral", "lena/flow/selectors.py", "        return any((f(val) for f in self._selectors))", "        for sel in self._selectors:\n            if sel(val):\n                return True\n        return False"),
     M("selector-exact-list", "lena/flow/selectors.py", "        elif isinstance(selector, list):", "        elif type(selector) is list:", ["C15-a"]),
     M("selectcontext-inherits-repr", SELF, "    def __repr__(self):\n        try:\n            predicate_repr = self._predicate.__name__", "    def _repr_unused(self):\n        try:\n            predicate_repr = self._predicate.__name__", ["C15-g"]),
     M("lookup-scalar-typeerror", "lena/context/functions.py", "        elif has_default:\n            return default\n        else:\n            raise LenaKeyError(\n                \"nested dict {} not found in {}\".format(key, d)", "        elif has_default:\n            return default\n        elif key in d:\n            raise LenaTypeError(\n                \"need a dictionary, {} provided\".format(d[key])\n            )\n        else:\n            raise LenaKeyError(\n                \"nested dict {} not found in {}\".format(key, d)", ["C15-b"]),
